@@ -109,10 +109,10 @@ func streamAlloc(thorough bool) {
 	runtime.GOMAXPROCS(1)
 	debug.SetGCPercent(-1)
 	n := 20
-	nObj := 12
+	nObj := 60
 	if thorough {
 		n = 60
-		nObj = 150
+		nObj = 600
 	}
 	emitA := func(v *version, kind, a1, a2, a3 string, k uint64) {
 		emit("A "+v.name+" "+kind+" "+a1+" "+a2+" "+a3, strconv.FormatUint(k, 10))
@@ -134,6 +134,33 @@ func streamAlloc(thorough bool) {
 			for _, mt := range v.metrics {
 				nb, err := v.set(b, mt.abv, mt.values[idx%len(mt.values)])
 				if err == nil {
+					b = nb
+				}
+			}
+			objs = append(objs, b)
+		}
+		// extremal lengths: every metric takes one of its longest (resp. shortest) value strings — the objects on which a
+		// buffer bound that is off by a few bytes shows (ties between equally long values are broken at random)
+		nExt := 120
+		if thorough {
+			nExt = 1500
+		}
+		for k := 0; k < nExt; k++ {
+			b := zero
+			for _, mt := range v.metrics {
+				best := []string{}
+				for _, val := range mt.values {
+					switch {
+					case len(best) == 0 || (k%4 != 3 && len(val) > len(best[0])) || (k%4 == 3 && len(val) < len(best[0])):
+						best = []string{val}
+					case len(val) == len(best[0]):
+						best = append(best, val)
+					}
+				}
+				if k%4 == 2 && rng.Intn(6) == 0 {
+					best = mt.values // mostly-longest
+				}
+				if nb, err := v.set(b, mt.abv, pick(best)); err == nil {
 					b = nb
 				}
 			}
